@@ -7,7 +7,7 @@ The theorems are about `Tongo.Boc.parseBoc`, the line-by-line model of the REPAI
 header integers wrap like Go's `uint`/`int`). The only hypothesis on the input is that it is a Go slice
 (`length < 2⁶³`). Property theorems only; the stage-by-stage Hoare triples are in `Lemmas/BocTotal.lean`. -/
 namespace Tongo.C07
-open Tongo Tongo.Boc
+open Tongo Tongo.Boc Tongo.BocHash
 
 /-- The reader never panics: no slice or index out of range, no `make` beyond the address space, on any input. -/
 theorem parse_total (bs : Bytes) (h : bs.length < two63) : ∀ p, parseBoc bs ≠ .panic p :=
